@@ -66,16 +66,23 @@ def run(chk, args):
             part = rules + [{k: v for k, v in e.items() if k != "pars"} for e in avgs[i:i + B]]
             v = vlib.validate_trace("OrientAvgTrace", part, timeout=3000)
             chk.cov["traces_validated_against_impl"] += len(part) - len(rules)
-            conv = dict((int(a), b == "TRUE") for a, b in re.findall(r'<<\s*"CONVERGED",\s*(\d+),\s*(TRUE|FALSE)\s*>>', v["out"]))
+            conv = dict((int(a), int(b)) for a, b in re.findall(r'<<\s*"CONVERGED",\s*(\d+),\s*(\d+)\s*>>', v["out"]))
             nconv += sum(1 for x in conv.values() if x)
+            chk.notes["q_points_meeting_convergence_premise"] = chk.notes.get("q_points_meeting_convergence_premise", 0) + sum(conv.values())
             for tid, line, clause, detail in v["rejects"]:
                 e = part[line - 1]
                 full = next((a for a in avgs if a["tid"] == tid), {})
-                chk.violation({"clause": clause, "model": e.get("model", "")},
+                key = {"clause": clause, "model": e.get("model", "")}
+                fp = full.get("pars") or {}
+                if "x_core" in fp and "thick_rim" in fp:
+                    # the known difference between the 1-D and 2-D functions of the elliptical bicelles exists only
+                    # for an elliptical cross-section with a rim; anything else about these models is judged normally
+                    key["elliptical-with-rim"] = bool(float(fp["x_core"]) != 1.0 and float(fp["thick_rim"]) > 0.0)
+                chk.violation(key,
                               {"scenario": by.get(tid), "clause": clause, "detail": detail[:2500], "pars": full.get("pars")})
             for e in avgs[i:i + B]:
-                chk.case([e["model"], sorted((k, str(x)) for k, x in e["pars"].items())], nontrivial=conv.get(e["tid"], False),
-                         sample={"model": e["model"], "sym": e["sym"], "q": e["q"], "converged": conv.get(e["tid"], False)})
+                chk.case([e["model"], sorted((k, str(x)) for k, x in e["pars"].items())], nontrivial=conv.get(e["tid"], 0) > 0,
+                         sample={"model": e["model"], "sym": e["sym"], "q": e["q"], "converged_q_points": conv.get(e["tid"], 0)})
         chk.notes["scenarios_meeting_convergence_premise"] = nconv
         chk.notes["scenarios_skipped_not_converged"] = len(avgs) - nconv
         if nconv < max(2, len(avgs) // 3) and not args.replay and not chk.violations:
